@@ -17,7 +17,7 @@
    correspondence: all delivery schedules to depth 5/7 plus random ones, on the real code and the
    model, with the open-what-the-other-seals / roles / payload / at-most-once oracle and the reliable
    phase at the end (py/props/c05.py). *)
-From VpnModel Require Import Base Nonce Replay Core CoreProofs Conn PeerCrypto InitProofs NegotiateProofs Rotation2Proofs LockstepProofs.
+From VpnModel Require Import Base Nonce Replay Core CoreProofs Conn PeerCrypto InitProofs NegotiateProofs Rotation2Proofs LockstepProofs GiveUpProofs.
 
 (* whatever sequence of verified messages an attempt is fed, it completes at most once *)
 Theorem C05_at_most_once : forall ok ms s, snd (run_init ok s ms) <= 1.
@@ -70,6 +70,18 @@ Theorem C05_opposite_halves : forall s1 n1 s2 n2, (s1 <> s2 \/ n1 <> n2) ->
   hash_gt s1 n1 s2 n2 = negb (hash_gt s2 n2 s1 n1).
 Proof. exact hash_gt_opposite. Qed.
 
+(* recovery ingredient: a handshake object that answered a ping and waits for the peng gives up (fatal Initialization timeout, upon which the node drops the entry and can dial again) once its retries plus the elapsed seconds exceed MAX_FAILED_RETRIES - whatever messages of other stages arrive in between, in any number and order: they change neither the object nor its give-up counter.  Two responder states (both ends dialled, gave up, and got the other end's last ping late) therefore cannot keep each other alive *)
+Theorem C05_waiting_responder_gives_up : forall ok evs s,
+  i_stage s = STAGE_PENG -> i_retries s <= MAX_FAILED_RETRIES ->
+  Forall (fun e => match e with Some m => im_stage m <> STAGE_PENG | None => True end) evs ->
+  MAX_FAILED_RETRIES < i_retries s + ticks evs ->
+  snd (run_evs ok s evs) = true.
+Proof. exact waiting_responder_gives_up. Qed.
+
+Example C05_ex_gives_up : i_stage ex_responder = STAGE_PENG /\ i_retries ex_responder <= MAX_FAILED_RETRIES /\
+  snd (run_evs (fun _ => true) ex_responder (flat_map (fun _ => [Some ex_pong; Some ex_pong; None]) (seq 0 121))) = true.
+Proof. exact ex_gives_up. Qed.
+
 (* the loss-free exchange (run3 = send ping; responder handles it; initiator handles the pong;
    responder handles the peng), all parameters universally quantified *)
 Theorem C05_lockstep_agreement :
@@ -104,3 +116,4 @@ Print Assumptions C05_no_unwrap_panic_ping.
 Print Assumptions C05_same_secret.
 Print Assumptions C05_same_cipher.
 Print Assumptions C05_opposite_halves.
+Print Assumptions C05_waiting_responder_gives_up.
